@@ -142,13 +142,13 @@ def shard_1d2d(arg):
     flux, pair, tier = arg
     res = core.Res()
     lrs = [("per", "per")] + [(a, b) for a in NAMES[1:] for b in NAMES[1:]]
-    for nx in ((1, 2, 3, 4) if tier == "thorough" else (1, 2, 3)):
+    for nx in ((1, 2, 3, 4, 5, 8) if tier == "thorough" else (1, 2, 3, 7)):
         nlet = 4 if nx <= 3 else 3
-        for ny in (1, 2, 3):
+        for ny in ((1, 2, 3) if nx <= 4 else (2,)):
             for lr in lrs:
                 for tb in ("per", "sym"):
                     for axis in (0, 1):
-                        for idx in itertools.product(range(nlet), repeat=nx):
+                        for idx in (itertools.product(range(nlet), repeat=nx) if nx <= 4 else space.pattern_assignments(nx, 3)):
                             if len(set(idx)) > 1:
                                 res.nontrivial += 1
                             for s, w in check_1d2d(flux, pair, nx, ny, lr, tb, idx, axis, res):
@@ -277,6 +277,20 @@ def shard_sym(arg):
     return res
 
 
+def shard_sym_big(arg):
+    """larger grids (odd/even, elongated) with all cyclic translates of the base patterns"""
+    flux, rname, grid = arg
+    res = core.Res()
+    nx, ny = grid[0], grid[1]
+    for names in SUBSET:
+        for idx in space.pattern_assignments(nx * ny, 3)[:: (1 if nx * ny <= 12 else 3)]:
+            res.nontrivial += 1
+            for s, w in check_sym(flux, rname, grid, names, idx, 30.0 if "insup" in names else None, res):
+                res.violation(s.replace("C15/symmetry/", "C15/symmetry/larger-grid/"), w, {"kind": "sym", "flux": flux, "recon": rname, "grid": list(grid), "names": list(names),
+                                                                                         "idx": list(idx), "angle": 30.0 if "insup" in names else None, "larger": True})
+    return res
+
+
 def shard_sym_multi(args):
     """several grids in one shard (used with object pooling: 2x3 and 3x2 have the same number of cells and faces)"""
     res = core.Res()
@@ -298,6 +312,8 @@ def run(ctx):
                 cfg.append((flux, rname, (nx, ny, 2.0, 0.75), "subset"))
     cfg.sort(key=lambda c: -(c[2][0] * c[2][1]) - (100 if c[3] == "subset" else 0))
     ctx.pmap("grid-symmetries", shard_sym, cfg)
+    ctx.pmap("grid-symmetries-size-ladder", shard_sym_big, [(flux, rname, (nx, ny, 2.0, 0.75)) for flux in ("centered", "hlle") for rname in (recs if th else recs[:2])
+                                                            for nx, ny in ((5, 4), (4, 5), (7, 2), (2, 7), (6, 3))])
     multi = [[(flux, rname, (nx, ny, 2.0, 0.75), "subset") for nx, ny in (((2, 3), (3, 2), (1, 2), (2, 1), (2, 2)) if th else ((1, 2), (2, 1), (2, 2), (1, 3)))]
              for flux in ("centered", "hlle") for rname in (recs if th else recs[:2])]
     ctx.pmap("grid-symmetries-reused-objects", core.Pooled(shard_sym_multi), multi)
@@ -306,4 +322,5 @@ def run(ctx):
 def replay(case):
     if case["kind"] == "1d2d":
         return check_1d2d(case["flux"], tuple(case["pair"]), case["nx"], case["ny"], tuple(case["lr"]), case["tb"], tuple(case["idx"]), case["axis"], par=case.get("par", "std"))
-    return check_sym(case["flux"], case["recon"], tuple(case["grid"]), tuple(case["names"]), tuple(case["idx"]), case["angle"])
+    v = check_sym(case["flux"], case["recon"], tuple(case["grid"]), tuple(case["names"]), tuple(case["idx"]), case["angle"])
+    return [(s_.replace("C15/symmetry/", "C15/symmetry/larger-grid/") if case.get("larger") else s_, w) for s_, w in v]
